@@ -196,7 +196,7 @@ def run_hex(ctx):
         v = hexagon.numRingsToHoldNumCells(n)
         req.append(f"numrings {n}"); impl.append(str(v)); cases.append(("numrings", n))
         if n > 0:
-            if not (hexagon.totalPositionsUpToRing(v) >= n and (v <= 1 or hexagon.totalPositionsUpToRing(v - 1) < n)):
+            if not (v >= 1 and hexagon.totalPositionsUpToRing(v) >= n and (v <= 1 or hexagon.totalPositionsUpToRing(v - 1) < n)):
                 ctx.fail("hex-numrings-least", "numRingsToHoldNumCells(n) is the least ring count holding n cells",
                          {"n": n}, observed=v)
     ctx.count("numRings inputs", len(ns))
@@ -236,7 +236,7 @@ def search(ctx, disagreements, broken):
             if kind == "numrings":
                 for n in range(max(1, c[1] - 50), c[1] + 50):
                     v = hexagon.numRingsToHoldNumCells(n)
-                    if not (hexagon.totalPositionsUpToRing(v) >= n and (v <= 1 or hexagon.totalPositionsUpToRing(v - 1) < n)):
+                    if not (v >= 1 and hexagon.totalPositionsUpToRing(v) >= n and (v <= 1 or hexagon.totalPositionsUpToRing(v - 1) < n)):
                         out.append(Failure("hex-numrings-least", "least ring count", {"n": n}, observed=v))
                         break
             elif kind in ("posinring", "totalupto"):
@@ -289,7 +289,7 @@ def replay(ctx, payload):
     if key == "hex-numrings-least":
         n = case["n"]
         v = hexagon.numRingsToHoldNumCells(n)
-        ok = hexagon.totalPositionsUpToRing(v) >= n and (v <= 1 or hexagon.totalPositionsUpToRing(v - 1) < n)
+        ok = v >= 1 and hexagon.totalPositionsUpToRing(v) >= n and (v <= 1 or hexagon.totalPositionsUpToRing(v - 1) < n)
         return None if ok else {"observed": v}
     # generic: re-run the quick check and report whether the same key fails again
     sub = type(ctx)(ctx.prop, "quick", ctx.seed)
